@@ -757,7 +757,21 @@ PPL::Polyhedron::process_pending_constraints() const {
     return true;
   }
 
-  const bool empty = add_and_minimize(true, x.con_sys, x.gen_sys, x.sat_c);
+  bool empty;
+  try {
+    empty = add_and_minimize(true, x.con_sys, x.gen_sys, x.sat_c);
+  }
+  catch (...) {
+    // The incremental conversion works in place on `gen_sys' and `sat_c':
+    // if it is cut short (memory exhaustion, abandoned computation)
+    // only `con_sys', pending rows included, still describes `x'.
+    x.con_sys.set_sorted(false);
+    x.con_sys.unset_pending_rows();
+    x.clear_pending_constraints();
+    x.clear_constraints_minimized();
+    x.clear_generators_up_to_date();
+    throw;
+  }
   PPL_ASSERT(x.con_sys.num_pending_rows() == 0);
 
   if (empty) {
@@ -797,7 +811,20 @@ PPL::Polyhedron::process_pending_generators() const {
     return;
   }
 
-  add_and_minimize(false, x.gen_sys, x.con_sys, x.sat_g);
+  try {
+    add_and_minimize(false, x.gen_sys, x.con_sys, x.sat_g);
+  }
+  catch (...) {
+    // The incremental conversion works in place on `con_sys' and `sat_g':
+    // if it is cut short (memory exhaustion, abandoned computation)
+    // only `gen_sys', pending rows included, still describes `x'.
+    x.gen_sys.set_sorted(false);
+    x.gen_sys.unset_pending_rows();
+    x.clear_pending_generators();
+    x.clear_generators_minimized();
+    x.clear_constraints_up_to_date();
+    throw;
+  }
   PPL_ASSERT(x.gen_sys.num_pending_rows() == 0);
 
   x.clear_pending_generators();
